@@ -682,6 +682,7 @@ func scenC03Pre(run *vlab.Run, sx, tmp string) {
 			before bool
 		}
 		var sent []bg
+		shapedRecs := map[string]bool{}
 		stop := make(chan struct{})
 		bgSrc := [4]byte{192, 168, 77, byte(1 + rng.Intn(250))}
 		spec := &CaseSpec{Args: args, Stdin: []byte{}, Setup: commonWorld("tap"), Timeout: 60 * time.Second,
@@ -702,9 +703,21 @@ func scenC03Pre(run *vlab.Run, sx, tmp string) {
 					}
 					seq++
 					sp := uint16(1024 + seq%60000)
-					ip := oracle.BuildIPv4(oracle.NewIPSpec(bgSrc, foreignSrc, oracle.ProtoTCP), oracle.BuildTCP(bgSrc, foreignSrc, oracle.TCPSpec{SrcPort: sp, DstPort: 40000, Flags: oracle.FlagSYN | oracle.FlagACK, DataOff: -1}))
+					src := bgSrc
+					shaped := false
+					if seq%5 == 0 {
+						// now and then a frame that IS reply-shaped (a host of the subnet, the scanned port): whether it is
+						// reported depends on when the socket came to be - either way it must not unlock the frames behind it
+						sn, _ := oracle.RefTarget(subnet)
+						src, sp, shaped = oracle.U32ToIP(sn.Base+uint32(seq/5%14)+1), port, true
+					}
+					ip := oracle.BuildIPv4(oracle.NewIPSpec(src, foreignSrc, oracle.ProtoTCP), oracle.BuildTCP(src, foreignSrc, oracle.TCPSpec{SrcPort: sp, DstPort: 40000, Flags: oracle.FlagSYN | oracle.FlagACK, DataOff: -1}))
 					mu.Lock()
-					sent = append(sent, bg{recTCP(oracle.IPString(bgSrc), sp, ""), !firstProbe})
+					if shaped {
+						shapedRecs[recTCP(oracle.IPString(src), sp, "")] = true
+					} else {
+						sent = append(sent, bg{recTCP(oracle.IPString(bgSrc), sp, ""), !firstProbe})
+					}
 					mu.Unlock()
 					c.Inject(d, oracle.BuildEth(tapMACb, [6]byte{2, 0, 0, 0, 0, 0x99}, oracle.EtherTypeIPv4, ip))
 					time.Sleep(200 * time.Microsecond)
@@ -739,6 +752,13 @@ func scenC03Pre(run *vlab.Run, sx, tmp string) {
 			}
 			if before[rec] {
 				nPre++
+				continue
+			}
+			mu.Lock()
+			sh := shapedRecs[rec]
+			mu.Unlock()
+			if sh {
+				run.Count("prefilter_reply_shaped_background_records", 1)
 				continue
 			}
 			run.Violation("spurious-record:background", fmt.Sprintf("record %q printed although no reply-shaped frame was injected and it matches no frame sent before the first probe: %s", rec, strings.Join(args, " ")), args)
